@@ -68,7 +68,8 @@ def worker(args):
             if len(stats.samples) < 2 and not found:
                 stats.samples.append(prop.sample(case))
             for f in found[:1]:
-                f = shrink(prop, f, budget_s=10.0 if args.tier == 'quick' else 20.0)
+                if not getattr(prop, 'no_shrink', False):
+                    f = shrink(prop, f, budget_s=10.0 if args.tier == 'quick' else 20.0)
                 f['seed'] = args.seed
                 f['case_index'] = j
                 f['hashseed'] = os.environ.get('PYTHONHASHSEED')
